@@ -162,6 +162,20 @@ class Holder:
 }
 
 
+def _constant_counts():
+    kinds = ['...', 'None', 'True', 'False', "'ab'", "''", "'a'", "'abcdefgh'", "b'ab'", "b''", '1000000', '1e100', '12j', '0xffffffff', "'\\n'"]
+    for n in (2, 3):
+        # one function: each kind of constant exactly n times (where the cost model has to be exact: a saving of one character per use)
+        body = ', '.join('v[%s]' % k for k in kinds for _ in range(n))
+        ADVERSARIAL['every kind of constant exactly %d times in one function, as a subscript' % n] = 'def f(v):\n    return (%s)\n' % body
+        body = ', '.join('v is %s' % k if k in ('...', 'None', 'True', 'False') else 'v == %s' % k for k in kinds for _ in range(n))
+        ADVERSARIAL['every kind of constant exactly %d times in one function, next to an operator' % n] = 'def f(v):\n    return (%s)\n' % body
+        ADVERSARIAL['every kind of constant exactly %d times at module level' % n] = ''.join('x%d_%d = v[%s]\n' % (i, j, k) for i, k in enumerate(kinds) for j in range(n))
+
+
+_constant_counts()
+
+
 def probes():
     from . import rename_e2e, hoist_e2e, transform_e2e
     out = dict(ADVERSARIAL)
